@@ -56,7 +56,11 @@ def opname(case, i):
     return 'input' if i < n else case['prog'][i - n][0] + (':' + str(case['prog'][i - n][1]) if case['prog'][i - n][0] in ('un', 'unp', 'bin', 'binc', 'minmax', 'tri') else '')
 
 
-def close(got, ref, tol, what, stats):
+def close(got, ref, tol, what, stats, per_order=False):
+    if per_order and ref.ndim >= 1 and ref.shape == got.shape:
+        for d in range(ref.shape[0]):
+            close(got[d], ref[d], tol, what + ' [order %d]' % d, stats)
+        return
     if got.shape != ref.shape:
         raise Violation('%s: shape %s vs %s' % (what, got.shape, ref.shape))
     if ref.size == 0:
@@ -105,20 +109,28 @@ def _guard_reverse(*a):
 
 
 @st.composite
-def meta_cases(draw, tier, first=None, families=None, max_len=6, reverse_mode=False, Dmax=None, Pmin=1, Dmin=1):
+def meta_cases(draw, tier, first=None, families=None, max_len=6, reverse_mode=False, Dmax=None, Pmin=1, Dmin=1, growth=False):
     allow_bcast = (not reverse_mode) or (not KF.is_open('KF-setitem-broadcast-reverse'))
     fams = families
     if fams is None:
         fams = PG.FAMILIES_ALL if reverse_mode else FWD_FAMILIES
     pr = draw(PG.programs(n_inputs=(1, 2), max_len=max_len, min_len=1, families=fams, out='any', K=4,
-                          allow_set_broadcast=allow_bcast, first=first, allow_ones=not reverse_mode, raw_vectors=False))
+                          allow_set_broadcast=allow_bcast, first=first, allow_ones=not reverse_mode, raw_vectors=False,
+                          kinks_ok=not reverse_mode))
     case = dict(pr)
     if Dmax is None:
         Dmax = (4 if reverse_mode else 5) if tier == 'quick' else (5 if reverse_mode else 7)
-    D = draw(st.sampled_from([d for d in [4, 3, 5, 6, 7, 2, 1] if Dmin <= d <= Dmax]))
+    D = draw(st.sampled_from([d for d in ([10, 9, 10, 8, 6] if growth else [4, 3, 5, 6, 7, 2, 1, 8, 9, 10]) if Dmin <= d <= Dmax]))
     P = draw(st.sampled_from([p for p in [2, 3, 1] if p >= Pmin]))
     case['D'], case['P'] = D, P
     case['hi'] = [draw(gen.higher_coeffs((D - 1, P) + p.shape[1:], gen.coeff_elements(1.0))) for p in pr['pts']]
+    if growth and D >= 3:
+        # wide dynamic range: coefficient k scaled by g^k (bilinear operations only; magnitudes up to ~1e18)
+        g = draw(st.sampled_from([100.0, 1000.0, 100.0, 30.0]))
+        for h in case['hi']:
+            for k in range(h.shape[0]):
+                h[k] *= g ** (k + 1)
+        case['growth'] = g
     case['althi'] = [draw(gen.float_array((D - 1,) + p.shape[1:], gen.coeff_elements(1.0))) for p in pr['pts']]
     case['q'] = draw(st.integers(0, P - 1))
     if reverse_mode:
